@@ -99,5 +99,5 @@ def check(ctx):
     )
     from .common import check_interp_options
 
-    check_interp_options(ctx, "C16-f", ["bluebonnet.flow.flowproperties"], 8)
+    check_interp_options(ctx, "C16-f", ["bluebonnet.flow.flowproperties"], 5)
     ctx.floor("C16", len(ctx.obligs), 7, "storage / mobility obligations")
